@@ -15,6 +15,12 @@ CHECKS = {
  "C04": ("model_checking", "exhaustive feeding of the C01 input space to every parser (own family: all inputs; other families: all bases and all mutants of default bases), all 65,536 type codes for type-parameterised functions, reflective invocation of every exported method with argument menus; recover() + watchdog",
          "Every execution in the bounded space is run to completion under recover(); a panic anywhere or a call exceeding the watchdog is a violation with a replayable input.",
          "No-hang is decided by a generous per-call watchdog in this tier (plus the step-count bound of the instrumented build, see C18 notes)."),
+ "C15": ("exploration", "exhaustive sweep: 8 published values x all 65,536 offsets x 3 structures, boundary sets for every other time field, exhaustive small lease-date tuples and permutations; oracle math/big on raw fields",
+         "The 16-bit offset axis is covered completely for every boundary published value; lease-set extremum over all tuples of 1..6 dates from a 3-value menu, all permutations of 4 dates and every extremum position among 16.",
+         "IsExpired checked at +-1 day only (time-dependent)."),
+ "C17": ("exploration", "exhaustive product of host x port x key-variant x caps menus through constructor and parser paths, against independent three-valued IP/port recognisers",
+         "Full product of a 50-host and 34-port menu plus key variants and caps; every static-key/IV length 0..40.",
+         "Strings outside the menus are not enumerated; Unspecified forms only bound by the consistency clauses."),
  "C19": ("model_checking", "differential exhaustive exploration: every pair of equivalent entry points run on the whole bounded input space (E1 + operators + byte-walk) and on the full product of constructor argument menus; builder call sequences enumerated",
          "For each of 27 parser pairs and 6 constructor pairs, both entry points are executed on every input in the bounded space that lies in the pair's stated domain and must agree on acceptance, serialisation and remainder.",
          "Domains: declared key types for type-specific readers, permitted types for wrappers; builder compared on codes <= 65535."),
